@@ -218,3 +218,44 @@ PROPS["C18"] = dict(
     trusted_base=BASE + [C18_COMP, C18_FRESH, "contracts/buffer_model.py (Python-level restatement of the cwp-proved Buffer contract)", "os.urandom stub (n bytes; ValueError for n < 0)"],
     assumptions=[C18_INV, C18_SEQ_INT, C18_QLOG, C18_CIDLEN, A2],
 )
+
+PB = "quic/packet_builder.py::QuicPacketBuilder."
+CRYPTO_STUB = "CryptoPair.encrypt_packet: trusted Python-level restatement of the cwp-proved C contracts of _crypto.c AEAD_encrypt + HeaderProtection_apply (after fix fe0e03b): result = header + payload + 16-byte tag; CryptoError exactly when payload > 1484, header + payload + 16 > 1500, header shorter than its packet-number field + 1, or payload shorter than 4 - pn_length; assumes send keys are installed (no AssertionError) and OpenSSL does not fail"
+BUF_STUB = "Buffer (contracts/buffer_model.py): trusted Python-level restatement of the cwp-proved contracts of _buffer.c"
+FRAMES = "modifies lists are checked syntactically (check_frame=True) for every C13 function: a heap field written on some path, other than at an object allocated on that path, must be named in `modifies`"
+PB_CALLERS = "callers of the builder (connection.py frame writers, not verified here): start_frame is called with a packet open, capacity >= 1 covering the frame type; bytes pushed after start_frame stay within the announced capacity (class-invariant clause 'non-empty packet leaves room for the tag'); start_packet is given a CryptoPair (aead_tag_size == 16, assigned once in CryptoPair.__init__) with send keys installed; max_total_bytes / max_flight_bytes are assigned only on a fresh builder"
+PB_OVR = "the budget clauses are claimed for a builder run up to the first 'overrun' (ghost flag g_ovr, candidate defect D2: header-protection sample padding is not budgeted by start_frame); start_packet/flush/_end_packet require `not g_ovr` on entry and report g_ovr on exit"
+CONN_PRE = "assumed preconditions of datagrams_to_send (connection invariants not re-proved): max_datagram_size >= 1200, version is a 32-bit value, connection IDs < 256 bytes, packet number >= 0"
+
+PROPS["C13"] = dict(
+    functions=[
+        # the two heavy functions first (fresh worker processes); NOT sharded: path pruning uses wall-clock solver budgets,
+        # so two processes can enumerate slightly different sets of (vacuous) paths and index-based sharding would
+        # lose count ("sharding lost obligations")
+        PB + "_end_packet", PB + "start_packet",
+        PB + "__init__", PB + "packet_is_empty", PB + "packet_number", PB + "remaining_buffer_space", PB + "remaining_flight_space",
+        PB + "start_frame", PB + "flush", PB + "_flush_current_datagram",
+        "quic/packet.py::encode_long_header_first_byte", "quic/crypto.py::CryptoPair.key_phase",
+        "quic/connection.py::QuicNetworkPath.can_send", "quic/connection.py::QuicConnection.datagrams_to_send",
+    ],
+    bounded=[],
+    # contract variants holding the clauses of the property that are REFUTED on the unchanged tree (genuine candidate defects,
+    # reproduced natively; see DESIGN 5 'C13 as built'): run with tools/vc.sh / tools/vcpar.py, expected verdict `refuted`
+    known_candidates=[
+        PB + "_flush_current_datagram#rfc_padding",  # D1: Initial datagrams are padded to the flight capacity, not to 1200
+        PB + "_end_packet#no_overrun",  # D2: sample padding can push a packet one byte over the datagram / amplification budget
+    ],
+    scope="decided for all builder states satisfying the class invariant PB, all arguments and all call sequences (induction over the public methods __init__, start_packet, start_frame, flush): "
+    "(s1) every datagram appended to the builder's output - hence every element returned by flush() - is at most max_datagram_size bytes long; "
+    "(s2, as the code achieves it) a datagram that contains an Initial packet sent by a client, or an ack-eliciting Initial packet sent by a server (ack-eliciting decided per frame type as in RFC 9000), is at least min(1200, flight capacity of that datagram) bytes long - the unconditional 1200-byte clause of the property is REFUTED (known candidate D1); "
+    "(s3, builder) _total_bytes equals the total length of all datagrams produced, trailing Initial padding included, and with max_total_bytes set that total never exceeds max(max_total_bytes, 0), up to the first sample-padding overrun (D2, refuted as its own clause); "
+    "(s3, connection, PREFIX of datagrams_to_send up to the try block of the non-closing branch) the builder is fresh and max_total_bytes == 3 * bytes_received - bytes_sent for EVERY unvalidated path, handshake confirmed or not; QuicNetworkPath.can_send(size) == validated or sent + size <= 3 * received; "
+    "packet numbers advance by exactly one per emitted packet and the packets returned by flush() carry consecutive numbers; start_frame refuses (QuicPacketBuilderStop) exactly when the announced size plus tag does not fit the datagram budget or, for in-flight frames, the flight budget; "
+    "no BufferWriteError / CryptoError escapes _end_packet, start_packet or flush unless an overrun happened (BufferWriteError) or max_datagram_size > 1500 (CryptoError)",
+    lemma="s1: invariant 'forall d in _datagrams: len(d) <= g_mds' (+ _flush_current_datagram ensures, flush ensures.0); g_mds is the constructor argument and equals the capacity of the builder's Buffer, which no method changes. "
+    "s3: ghost g_out += len(datagram) at the only append site; invariant _total_bytes == g_out (cut in _flush_current_datagram: the count charged equals the length handed over); start_packet clips _buffer_capacity to max_total_bytes - _total_bytes when a datagram is begun, invariant g_out + max(_buffer_capacity,0) <= max(max_total_bytes,0) while it is assembled, tell() <= _buffer_capacity, trailing padding goes to _flight_capacity <= _buffer_capacity; so after any call sequence g_out <= max_total_bytes; with the datagrams_to_send prefix (fresh builder, budget = 3*received - sent) the bytes of one datagrams_to_send call stay within the budget of the path. "
+    "s2: ghost g_need is set at the only site where a packet is recorded as sent, from the property's words; cut in _end_packet: such a packet marks the datagram (_datagram_needs_padding); _flush_current_datagram then pads to the flight capacity (1-RTT: inside the packet)",
+    not_decided="the unconditional 1200-byte floor (D1, refuted); the exact budget under sample padding (D2, refuted); the close branch of datagrams_to_send, which sets no max_total_bytes at all (D3, reproduced natively: 4027 bytes sent to an unvalidated address that sent 1200); the rest of datagrams_to_send (frame writers, packet registration, the bytes_sent += len(datagram) loop), receive_datagram's bytes_received accounting and path validation, _find_network_path / migration; that the frame writers respect the builder's call protocol (" + PB_CALLERS + "); key-phase values of CryptoContext (0/1) are an invariant assumed of CryptoPair",
+    trusted_base=BASE + [CRYPTO_STUB, BUF_STUB, FRAMES, PB_CALLERS, PB_OVR],
+    assumptions=[A2, PB_CALLERS, PB_OVR, CONN_PRE],
+)
